@@ -1,8 +1,21 @@
+// Correspondence runner and property oracle for C35: service requests with
+// chosen authentication tokens (missing, unknown, closed, not yet activated,
+// valid, valid on another channel) over raw secure channels (the real uasc
+// client channel, no client session layer) against a server running in a
+// child process; response class and change of the server's tables are
+// compared with the Lean model of the dispatch (Model/SrvHandlers.lean).
+//
+// Oracle, on the implementation alone: a non-exempt request whose token does
+// not name a created, activated, not closed session must be answered with a
+// session error and must leave the server's tables and the test variable
+// unchanged; exempt services must work without a session; a valid session
+// must be served.
 package main
 
 import (
-	"context"
 	"fmt"
+	"strings"
+	"sync"
 	"time"
 
 	"github.com/gopcua/opcua/ua"
@@ -11,67 +24,268 @@ import (
 	"verifharness/internal/srvx"
 )
 
+var allKinds = []string{"missing", "unknown", "unknownstr", "closed", "notactivated", "valid", "validB"}
+
+// requests that cannot hit a dereference whatever the token is
+func safeRequests(v int32) []struct {
+	m string
+	r ua.Request
+} {
+	return []struct {
+		m string
+		r ua.Request
+	}{
+		{"findservers", &ua.FindServersRequest{}},
+		{"getendpoints", &ua.GetEndpointsRequest{EndpointURL: "opc.tcp://localhost:0"}},
+		{"read", srvx.ReadReq(srvx.TestVar(), ua.AttributeIDValue)},
+		{fmt.Sprintf("write %d", v), srvx.WriteValueReq(srvx.TestVar(), v)},
+		{"browse plain 1", srvx.BrowseReq(srvx.TestFolder(), ua.NewNumericNodeID(0, 0), true, ua.BrowseDirectionBoth)},
+		{"publish", srvx.PublishReq()},
+		{"delsubs 71,72", srvx.DeleteSubsReq(71, 72)},
+		{"delsubs -", srvx.DeleteSubsReq()},
+		{"createitems 71 1", srvx.CreateItemsReq(71, 1, srvx.TestVar())},
+		{"setmode -", srvx.SetModeReq(71)},
+		{"delitems -", srvx.DeleteItemsReq(71)},
+	}
+}
+
+// the matrix episode: every service family x every token kind, no request that can dereference
+func epMatrix(e *srvx.Episode) {
+	e.Cast()
+	v := int32(10)
+	for _, kind := range allKinds {
+		for _, q := range safeRequests(v) {
+			e.Do(kind, q.m, q.r, "")
+			v++
+		}
+		// session services with this token
+		if kind == "notactivated" {
+			// activating turns the session into a valid one: use a throw-away session for this step
+			tmp, save := e.NewSession("missing", false, false), e.NotAct
+			e.NotAct = tmp
+			e.Do(kind, "activate 0 1", srvx.ActivateSessionReq(nil, ""), "")
+			e.NotAct = save
+		} else {
+			e.Do(kind, "activate 0 1", srvx.ActivateSessionReq(nil, ""), "")
+		}
+		e.NewSession(kind, false, false)
+		// CreateSubscription; a subscription without owner is removed behind the services' back afterwards
+		res := e.Do(kind, "createsub huge", srvx.CreateSubReq(3600000, 100000, 100000), "")
+		if cr, ok := res.Resp.(*ua.CreateSubscriptionResponse); ok {
+			if kind == "valid" || kind == "validB" || kind == "notactivated" {
+				e.Do(kind, fmt.Sprintf("delsubs %d", cr.SubscriptionID), srvx.DeleteSubsReq(cr.SubscriptionID), "")
+			} else {
+				e.Child.DeleteSub(cr.SubscriptionID)
+				srvx.WaitUntil(3*time.Second, func() bool {
+					_, st := e.State()
+					if st == nil {
+						return true
+					}
+					for _, u := range st.Subs {
+						if u.ID == cr.SubscriptionID {
+							return false
+						}
+					}
+					return true
+				})
+			}
+		}
+	}
+	// the stub services: all of them without a session, a seeded few with the other kinds
+	names := srvx.StubNames()
+	for _, n := range names {
+		e.Do("missing", "other "+n, srvx.StubRequest(n), "")
+	}
+	for _, kind := range allKinds[1:] {
+		for i := 0; i < 3; i++ {
+			n := names[e.Rnd.Intn(len(names))]
+			e.Do(kind, "other "+n, srvx.StubRequest(n), "")
+		}
+	}
+	// closing: unknown token (answered Good, nothing happens), then a not activated session
+	e.Do("unknown", "close", &ua.CloseSessionRequest{}, "")
+	e.Do("missing", "close", &ua.CloseSessionRequest{}, "")
+	// monitored items and ownership with valid sessions
+	res := e.Do("valid", "createsub huge", srvx.CreateSubReq(3600000, 100000, 100000), "")
+	if cr, ok := res.Resp.(*ua.CreateSubscriptionResponse); ok {
+		id := cr.SubscriptionID
+		r2 := e.Do("valid", fmt.Sprintf("createitems %d 2", id), srvx.CreateItemsReq(id, 2, srvx.TestVar()), "")
+		e.Do("valid2", fmt.Sprintf("createitems %d 1", id), srvx.CreateItemsReq(id, 1, srvx.TestVar()), "other session's subscription")
+		e.Do("validB", fmt.Sprintf("createitems %d 0", id), srvx.CreateItemsReq(id, 0, srvx.TestVar()), "")
+		if ir, ok := r2.Resp.(*ua.CreateMonitoredItemsResponse); ok && len(ir.Results) == 2 {
+			a, b := ir.Results[0].MonitoredItemID, ir.Results[1].MonitoredItemID
+			e.Do("valid", fmt.Sprintf("setmode %d,%d", a, b), srvx.SetModeReq(id, a, b), "")
+			e.Do("valid2", fmt.Sprintf("setmode %d", a), srvx.SetModeReq(id, a), "other session's item")
+			e.Do("valid", fmt.Sprintf("delitems %d", a), srvx.DeleteItemsReq(id, a), "")
+		}
+		e.Do("valid2", fmt.Sprintf("delsubs %d,71", id), srvx.DeleteSubsReq(id, 71), "other session's subscription")
+		e.Do("valid", fmt.Sprintf("delsubs %d", id), srvx.DeleteSubsReq(id), "")
+	}
+	// seeded random tail
+	for i := 0; i < e.O.N(40, 400); i++ {
+		kind := allKinds[e.Rnd.Intn(len(allKinds))]
+		qs := safeRequests(int32(1000 + i))
+		q := qs[e.Rnd.Intn(len(qs))]
+		if q.m == "publish" && (kind == "valid" || kind == "validB" || kind == "notactivated") && !e.Rnd.Chance(15) {
+			continue // each of these costs a timeout
+		}
+		e.Do(kind, q.m, q.r, "random")
+	}
+}
+
+// crash episodes: a subscription with an item owned by a valid session, then one request
+// without a valid session that reaches a dereference of the nil session
+func epCrash(which string) func(e *srvx.Episode) {
+	return func(e *srvx.Episode) {
+		e.Cast()
+		res := e.Do("valid", "createsub huge", srvx.CreateSubReq(3600000, 100000, 100000), "")
+		cr, ok := res.Resp.(*ua.CreateSubscriptionResponse)
+		if !ok {
+			return
+		}
+		id := cr.SubscriptionID
+		r2 := e.Do("valid", fmt.Sprintf("createitems %d 1", id), srvx.CreateItemsReq(id, 1, srvx.TestVar()), "")
+		ir, ok := r2.Resp.(*ua.CreateMonitoredItemsResponse)
+		if !ok || len(ir.Results) != 1 {
+			return
+		}
+		item := ir.Results[0].MonitoredItemID
+		switch which {
+		case "delsubs":
+			e.Do("missing", fmt.Sprintf("delsubs %d", id), srvx.DeleteSubsReq(id), "existing subscription, no session")
+		case "createitems":
+			e.Do("unknown", fmt.Sprintf("createitems %d 1", id), srvx.CreateItemsReq(id, 1, srvx.TestVar()), "existing subscription, unknown token")
+		case "setmode":
+			e.Do("closed", fmt.Sprintf("setmode %d", item), srvx.SetModeReq(id, item), "existing item, closed session")
+		case "delitems":
+			e.Do("notactivated", fmt.Sprintf("delitems %d", item), srvx.DeleteItemsReq(id, item), "existing item, session never activated")
+		}
+	}
+}
+
+func classify(kind, fam string) string {
+	if kind == "notactivated" {
+		return "C35.not-activated-session-accepted"
+	}
+	return "C35." + fam + "-without-session"
+}
+
+func evaluate(r *h.Result, d *h.Driver, e *srvx.Episode) {
+	if e.Infra != "" {
+		r.InfraError = e.Name + ": " + e.Infra
+	}
+	for _, x := range e.Recs {
+		cs := fmt.Sprintf("ep=%s step=%d kind=%s req=%s", x.Ep, x.N, x.Kind, strings.ReplaceAll(x.Req, " ", "_"))
+		line := fmt.Sprintf("step %s | %d | %s", x.Pre, x.Tok, x.Req)
+		r.Count(x.Kind+" "+line, true)
+		r.Compare(d, line, x.Out+" | "+x.Post)
+		oc := strings.Fields(x.Out)[0]
+		r.Hit("kind:" + x.Kind)
+		r.Hit("req:" + strings.Fields(x.Req)[0])
+		r.Hit("out:" + oc)
+		if r.Evaluations%61 == 0 {
+			r.Sample(cs + " -> " + x.Out)
+		}
+		valid := x.Kind == "valid" || x.Kind == "validB" || x.Kind == "valid2"
+		changed := x.Pre != x.Post
+		switch {
+		case x.Exempt:
+			// discovery and session creation work without a session; ActivateSession needs a created session
+			switch strings.Fields(x.Req)[0] {
+			case "findservers", "getendpoints", "createsession":
+				if oc != "ok" {
+					r.Fail(cs, "", "exempt service not answered: "+x.Out)
+				}
+			case "activate":
+				created := valid || x.Kind == "notactivated"
+				if !created && (oc != "sessionerr" || changed) {
+					r.Fail(cs, "", "ActivateSession for a token without session: "+x.Out)
+				}
+				if created && oc != "ok" {
+					r.Fail(cs, "", "ActivateSession of a created session refused: "+x.Out)
+				}
+			}
+		case valid:
+			if oc == "sessionerr" {
+				r.Fail(cs, "", "request of an activated session refused: "+x.Out)
+			}
+			r.Hit("served-valid")
+		default:
+			// ---- the property: session error and no action
+			if oc == "sessionerr" && !changed {
+				r.Hit("refused:" + x.Family)
+				continue
+			}
+			sig := classify(x.Kind, x.Family)
+			what := "answered " + x.Out
+			if changed {
+				what += fmt.Sprintf(" and changed the server state (%s -> %s)", x.Pre, x.Post)
+			}
+			detail := fmt.Sprintf("%s with token kind %s: %s %s", x.Req, x.Kind, what, x.Note)
+			r.Fail(cs, sig, detail)
+			r.Confirm(sig, detail)
+			r.Hit("violation:" + sig)
+			r.Compare(d, fmt.Sprintf("class35 %s | %d | %s", x.Pre, x.Tok, x.Req), sig)
+		}
+	}
+}
+
 func main() {
 	srvx.MaybeChild()
 	o := h.ParseOpts()
 	srvx.Quiet()
-	t0 := time.Now()
-	c, err := srvx.StartChild(srvx.ChildSpec{Keys: o.Keys})
+	r := h.NewResult("C35", o)
+	d, err := h.StartDriver(o.Driver)
 	if err != nil {
-		panic(err)
+		r.InfraError = err.Error()
+		r.Write(o.Out)
+		return
 	}
-	defer c.Kill()
-	fmt.Println("child ready", time.Since(t0), c.URL)
-	ctx := context.Background()
-	ch, err := srvx.OpenStd(ctx, c.URL, ua.SecurityPolicyURINone, ua.MessageSecurityModeNone, nil, nil, 3*time.Second)
-	if err != nil {
-		panic(err)
+	defer d.Close()
+	rnd := h.NewRand(o.Seed)
+	r.Rule = "case = (server state, token kind, request): server in a child process, two raw secure channels (None); token kinds missing / unknown numeric / unknown string / closed / created-not-activated / valid / valid on the other channel; requests of every implemented service (ids chosen so that no nil session is dereferenced in the matrix episode), all 23 stub services, session services; plus four episodes ending in a request that dereferences the nil session (server crash observed); response class and the server's session / subscription / item tables and test value before and after are compared with the Lean step function; distinct by (state, token, request)"
+
+	type epdef struct {
+		name string
+		run  func(*srvx.Episode)
 	}
-	show := func(what string, r srvx.Result) {
-		st, err := c.State()
-		fmt.Printf("%-40s -> %-40s state=%+v err=%v\n", what, r.String(), st, err)
+	eps := []epdef{{"matrix", epMatrix}, {"crash-delsubs", epCrash("delsubs")}, {"crash-createitems", epCrash("createitems")},
+		{"crash-setmode", epCrash("setmode")}, {"crash-delitems", epCrash("delitems")}}
+	if o.Replay != "" {
+		var keep []epdef
+		for _, e := range eps {
+			if strings.Contains(o.Replay, "ep="+e.name+" ") || strings.HasSuffix(o.Replay, "ep="+e.name) {
+				keep = append(keep, e)
+			}
+		}
+		eps = keep
 	}
-	to := 2 * time.Second
-	var nilTok *ua.NodeID
-	show("read no token", ch.Do(srvx.ReadReq(srvx.TestVar(), ua.AttributeIDValue), nilTok, to))
-	show("write no token", ch.Do(srvx.WriteValueReq(srvx.TestVar(), 7), nilTok, to))
-	show("browse no token", ch.Do(srvx.BrowseReq(srvx.TestFolder(), ua.NewNumericNodeID(0, 0), true, ua.BrowseDirectionBoth), nilTok, to))
-	show("publish no token", ch.Do(srvx.PublishReq(), nilTok, 500*time.Millisecond))
-	show("publish unknown", ch.Do(srvx.PublishReq(), ua.NewNumericNodeID(0, 12345), 500*time.Millisecond))
-	show("activate unknown", ch.Do(srvx.ActivateSessionReq(nil, ""), ua.NewNumericNodeID(0, 12345), to))
-	show("close unknown", ch.Do(&ua.CloseSessionRequest{}, ua.NewNumericNodeID(0, 12345), to))
-	r := ch.Do(srvx.CreateSessionReq(c.URL, nil), nilTok, to)
-	show("createsession", r)
-	fmt.Println(c.Stderr())
-	tok := r.Resp.(*ua.CreateSessionResponse).AuthenticationToken
-	fmt.Println("token", tok)
-	show("publish notactivated", ch.Do(srvx.PublishReq(), tok, 500*time.Millisecond))
-	show("activate", ch.Do(srvx.ActivateSessionReq(nil, ""), tok, to))
-	show("createsub no token huge", ch.Do(srvx.CreateSubReq(3600000, 1000, 100), nilTok, to))
-	show("createsub tok huge", ch.Do(srvx.CreateSubReq(3600000, 1000, 100), tok, to))
-	show("delsubs unknown no token", ch.Do(srvx.DeleteSubsReq(77, 78), nilTok, to))
-	show("createitems unknown sub", ch.Do(srvx.CreateItemsReq(77, 1, srvx.TestVar()), nilTok, to))
-	show("createitems sub2 tok", ch.Do(srvx.CreateItemsReq(2, 2, srvx.TestVar()), tok, to))
-	show("setmode [] no token", ch.Do(srvx.SetModeReq(2), nilTok, to))
-	show("delitems [] no token", ch.Do(srvx.DeleteItemsReq(2), nilTok, to))
-	show("setmode [1] tok", ch.Do(srvx.SetModeReq(2, 1), tok, to))
-	show("delitems [1] tok", ch.Do(srvx.DeleteItemsReq(2, 1), tok, to))
-	time.Sleep(100 * time.Millisecond)
-	show("delsubs [2] tok", ch.Do(srvx.DeleteSubsReq(2), tok, to))
-	time.Sleep(100 * time.Millisecond)
-	for _, n := range srvx.StubNames() {
-		show(n, ch.Do(srvx.StubRequest(n), nilTok, to))
+	out := make([]*srvx.Episode, len(eps))
+	var wg sync.WaitGroup
+	for i, def := range eps {
+		e := srvx.NewEpisode(def.name, o, rnd.Fork(), srvx.ChildSpec{})
+		out[i] = e
+		wg.Add(1)
+		go func(e *srvx.Episode, run func(*srvx.Episode)) {
+			defer wg.Done()
+			defer e.Finish()
+			if e.Setup() {
+				run(e)
+			}
+		}(e, def.run)
 	}
-	show("close tok", ch.Do(&ua.CloseSessionRequest{}, tok, to))
-	show("read closed tok", ch.Do(srvx.ReadReq(srvx.TestVar(), ua.AttributeIDValue), tok, to))
-	show("findservers", ch.Do(&ua.FindServersRequest{}, nilTok, to))
-	show("getendpoints", ch.Do(&ua.GetEndpointsRequest{EndpointURL: "opc.tcp://localhost:0"}, nilTok, to))
-	d, err := srvx.Canary(c.URL, 3*time.Second)
-	fmt.Println("canary", d, err)
-	// crash: delete sub 1 (nil owner) without token
-	show("delsubs [1] no token", ch.Do(srvx.DeleteSubsReq(1), nilTok, to))
-	fmt.Println("exited", c.WaitExit(3*time.Second))
-	fmt.Println(c.CrashSite())
-	d, err = srvx.Canary(c.URL, 1*time.Second)
-	fmt.Println("canary", d, err)
+	wg.Wait()
+	for _, e := range out {
+		evaluate(r, d, e)
+	}
+	for _, b := range []string{"out:ok", "out:sessionerr", "out:fault", "out:noresponse", "out:crash", "served-valid", "refused:publish",
+		"violation:C35.read-without-session", "violation:C35.write-without-session", "violation:C35.browse-without-session",
+		"violation:C35.subscription-without-session", "violation:C35.monitoreditems-without-session",
+		"violation:C35.unsupported-without-session", "violation:C35.not-activated-session-accepted"} {
+		if r.Distribution[b] == 0 && o.Replay == "" {
+			r.Unreached = append(r.Unreached, b)
+		}
+	}
+	r.Notes = append(r.Notes, "all requests travel over SecurityPolicy None channels; CreateSession / ActivateSession signature paths on signed channels are exercised by C29 and C22")
+	r.Write(o.Out)
 }
